@@ -349,7 +349,7 @@ class MinFlowDecomp(pathmodel.AbstractPathModelDAG): # Note that we inherit from
                 if self.G.in_degree(v) == 0:
                     for _, _, data in self.G.out_edges(v, data=True):
                         if self.flow_attr in data:
-                            self._source_flow += data[self.flow_attr]
+                            self._source_flow += gu.plain_number(data[self.flow_attr])
             utils.logger.debug(f"{__name__}: source_flow = {self._source_flow}")
             return self._source_flow
         else:
@@ -399,8 +399,8 @@ class MinFlowDecomp(pathmodel.AbstractPathModelDAG): # Note that we inherit from
             for u, v in level_edges[i]:
                 if (u, v) in self.edges_to_ignore or self.flow_attr not in self.G.edges[u, v]:
                     continue
-                level_flow_sum += self.G.edges[u, v][self.flow_attr]
-                level_flow_parts.append(self.G.edges[u, v][self.flow_attr])
+                level_flow_sum += gu.plain_number(self.G.edges[u, v][self.flow_attr])
+                level_flow_parts.append(gu.plain_number(self.G.edges[u, v][self.flow_attr]))
             
             if level_flow_sum == source_flow and len(level_flow_parts) >= min_constraint_len:
                 # We add the constraint for this level
